@@ -125,25 +125,50 @@ theorem replayRuns_ok : ∀ (runs : List (Nat × Nat)) (st : Store), (∀ r ∈ 
     rw [if_neg (by simp only at h1; omega)]
     exact replayRuns_ok rs _ (fun r hr => h r (List.mem_cons_of_mem _ hr))
 
-/-- a conformant run list decodes (replay + `ensure_correct_store`) to the canonical store of its values -/
-theorem runStore_conformant (cap : Nat) (runs : List (Nat × Nat)) (hok : Spec.runsOK runs = true)
-    (hne : runVals runs ≠ []) :
-    ∃ st, replayRuns (Store.withCapacity cap) runs = .ok st ∧
-      (Container.ensureCorrectStore { key := 0, store := st }).store.WF ∧
-      (Container.ensureCorrectStore { key := 0, store := st }).store.elems = runVals runs := by
+/-- a conformant run list replays (from any `Store::with_capacity`) to a structurally valid store holding
+    exactly its values (not yet normalised: `ensure_correct_store` comes later, or — in
+    `intersection_with_serialized` — only after the `&=`) -/
+theorem runStore_conformant (cap : Nat) (runs : List (Nat × Nat)) (hok : Spec.runsOK runs = true) :
+    ∃ st, replayRuns (Store.withCapacity cap) runs = .ok st ∧ st.Inv ∧ st.elems = runVals runs := by
   obtain ⟨st, hst⟩ := replayRuns_ok runs (Store.withCapacity cap) (runsOK_bound runs hok)
-  obtain ⟨e1, _, e3⟩ := runStore_spec cap runs st hst
-  have heq : (Container.ensureCorrectStore { key := 0, store := st }).store.elems = runVals runs := by
-    apply Arr.sorted_ext _ _ (Store.sorted_elems _ (Store.canon_inv _ e1)) (runsOK_sorted runs hok)
-    intro x
-    rw [e3 x, mem_runVals]
-  refine ⟨st, hst, Store.wf_of_canon _ e1 (by rw [heq]; exact hne), heq⟩
-
+  obtain ⟨e1, _, e3⟩ := replayRuns_spec runs _ st (withCapacity_inv cap) hst
+  refine ⟨st, hst, e1, ?_⟩
+  apply Arr.sorted_ext _ _ (Store.sorted_elems _ e1) (runsOK_sorted runs hok)
+  intro x
+  rw [e3 x, mem_runVals, withCapacity_elems]
+  simp
 
 theorem isBytes_take {bs : List Nat} (n : Nat) (h : IsBytes bs) : IsBytes (bs.take n) :=
   fun x hx => h x (List.mem_of_mem_take hx)
 theorem isBytes_drop {bs : List Nat} (n : Nat) (h : IsBytes bs) : IsBytes (bs.drop n) :=
   fun x hx => h x (List.mem_of_mem_drop hx)
+
+/-- a run chunk: the model's `decodeRunStore` returns a structurally valid store with the reference values -/
+theorem decodeRunStore_spec (card : Nat) (bs vals rest : List Nat) (hb : IsBytes bs) (hcard : 1 ≤ card)
+    (h : Spec.decodeChunk true card bs = some (vals, rest)) :
+    ∃ st, decodeRunStore readN bs = .ok (st, rest) ∧ st.Inv ∧ st.elems = vals ∧ vals ≠ [] ∧ IsBytes rest := by
+  unfold Spec.decodeChunk at h
+  simp only [↓reduceIte, bind, Option.bind_eq_some_iff, Prod.exists, guard_some_iff, pure,
+    Option.some.injEq, Prod.mk.injEq] at h
+  obtain ⟨nb, r1, h1, ib, r2, h2, _, hok, _, hlen, hv, hr⟩ := h
+  obtain ⟨t1, l1, e1, d1, _⟩ := takeN_some h1
+  obtain ⟨t2, l2, e2, d2, _⟩ := takeN_some h2
+  subst hr
+  have hrest : IsBytes r2 := by rw [d2, d1]; exact isBytes_drop _ (isBytes_drop _ hb)
+  have hruns : pairs (leWords 2 ib) = Spec.toPairs (Spec.leInts 2 (2 * Spec.leNat nb) ib) := by
+    rw [toPairs_eq, leInts_eq, leWords_of_length 2 (2 * Spec.leNat nb) ib (by decide) (by rw [l2]; omega)]
+  have hne : vals ≠ [] := by
+    intro hc
+    rw [hv, hc] at hlen; simp at hlen; omega
+  obtain ⟨st, hst, hinv, hel⟩ := runStore_conformant
+    ((List.map (·.2) (pairs (leWords 2 ib))).foldl (· + ·) 0) _ hok
+  refine ⟨st, ?_, hinv, by rw [hel, ← hv]; rfl, hne, hrest⟩
+  unfold decodeRunStore
+  rw [bind_ok _ _ _ _ _ t1]
+  simp only [← leNat_eq]
+  rw [Nat.mul_comm, bind_ok _ _ _ _ _ t2]
+  rw [← hruns] at hst
+  rw [hst]; rfl
 
 /-- one chunk: whenever the reference decoder accepts a payload, the model's chunk decoder (either decoder,
     either build configuration) returns the well-formed store holding exactly the reference values, and
@@ -152,38 +177,18 @@ theorem decodeStore_spec (chk dbg : Bool) (card : Nat) (isRun : Bool) (bs vals r
     (hb : IsBytes bs) (hcard : 1 ≤ card)
     (h : Spec.decodeChunk isRun card bs = some (vals, rest)) :
     ∃ st, decodeStore readN chk dbg card isRun bs = .ok (st, rest) ∧ st.WF ∧ st.elems = vals ∧ IsBytes rest := by
-  unfold Spec.decodeChunk at h
-  unfold decodeStore
   cases isRun with
   | true =>
-    simp only [↓reduceIte, bind, Option.bind_eq_some_iff, Prod.exists, guard_some_iff, pure,
-      Option.some.injEq, Prod.mk.injEq] at h
-    obtain ⟨nb, r1, h1, ib, r2, h2, _, hok, _, hlen, hv, hr⟩ := h
-    obtain ⟨t1, l1, e1, d1, _⟩ := takeN_some h1
-    obtain ⟨t2, l2, e2, d2, _⟩ := takeN_some h2
-    subst hr
-    have hib : IsBytes ib := by rw [e2, d1]; exact isBytes_take _ (isBytes_drop _ hb)
-    have hrest : IsBytes r2 := by rw [d2, d1]; exact isBytes_drop _ (isBytes_drop _ hb)
-    have hruns : pairs (leWords 2 ib) = Spec.toPairs (Spec.leInts 2 (2 * Spec.leNat nb) ib) := by
-      rw [toPairs_eq, leInts_eq, leWords_of_length 2 (2 * Spec.leNat nb) ib (by decide) (by rw [l2]; omega)]
-    have hne : runVals (Spec.toPairs (Spec.leInts 2 (2 * Spec.leNat nb) ib)) ≠ [] := by
-      intro hc
-      have : (runVals (Spec.toPairs (Spec.leInts 2 (2 * Spec.leNat nb) ib))).length = card := hlen
-      rw [hc] at this; simp at this; omega
-    obtain ⟨st, hst, hwf, hel⟩ := runStore_conformant
-      ((List.map (·.2) (pairs (leWords 2 ib))).foldl (· + ·) 0) _ hok hne
-    have hrun : decodeRunStore readN bs = .ok (st, r2) := by
-      unfold decodeRunStore
-      rw [bind_ok _ _ _ _ _ t1]
-      simp only [← leNat_eq]
-      rw [Nat.mul_comm, bind_ok _ _ _ _ _ t2]
-      rw [← hruns] at hst
-      rw [hst]; rfl
-    refine ⟨_, ?_, hwf, by rw [hel, ← hv]; rfl, hrest⟩
+    obtain ⟨st, hrun, hinv, hel, hne, hrest⟩ := decodeRunStore_spec card bs vals rest hb hcard h
+    obtain ⟨e1, e2, _⟩ := Container.ensureCorrectStore_spec { key := 0, store := st } hinv
+    refine ⟨_, ?_, Store.wf_of_canon _ e1 (by rw [e2, hel]; exact hne), by rw [e2, hel], hrest⟩
+    unfold decodeStore
     simp only [↓reduceIte]
     rw [bind_ok _ _ _ _ _ hrun]
     rfl
   | false =>
+    unfold Spec.decodeChunk at h
+    unfold decodeStore
     simp only [Bool.false_eq_true, ↓reduceIte] at h ⊢
     by_cases hc : card ≤ 4096
     · have hc' : card ≤ ARRAY_LIMIT := hc
@@ -336,7 +341,8 @@ theorem decodeHeader_spec (bs cb r1 : List Nat) (n : Nat) (flags : Option (List 
                 (Spec.takeN (4 * n) r3).bind fun x => some (some (Spec.leInts 4 n x.fst), x.snd)
               else some (none, r3)) = some (offs, r4)) :
     ∃ hd, decodeHeader readN bs = .ok (hd, r4) ∧ hd.runBitmap = flags ∧
-      hd.descr = Spec.toPairs (Spec.leInts 2 (2 * n) db) ∧ IsBytes db ∧ IsBytes r4 := by
+      hd.descr = Spec.toPairs (Spec.leInts 2 (2 * n) db) ∧ IsBytes db ∧ IsBytes r4 ∧
+      hd.hasOffsets = offs.isSome ∧ (∀ os, offs = some os → hd.offsets = os) := by
   obtain ⟨t1, l1, e1, d1, _⟩ := takeN_some h1
   obtain ⟨t3, l3, e3, d3, _⟩ := takeN_some h3
   have hr1 : IsBytes r1 := by rw [d1]; exact isBytes_drop _ hb
@@ -351,10 +357,12 @@ theorem decodeHeader_spec (bs cb r1 : List Nat) (n : Nat) (flags : Option (List 
       Prod.mk.injEq] at hcase hoff ⊢
     obtain ⟨nb, rr, h2, hnn, hfl, hrr⟩ := hcase
     subst hrr
-    obtain ⟨ob, rr4, h4, _, hr4⟩ := hoff
+    obtain ⟨ob, rr4, h4, hofs, hr4⟩ := hoff
     subst hr4
     obtain ⟨t2, l2, e2, d2, _⟩ := takeN_some h2
     obtain ⟨t4, l4, e4, d4, _⟩ := takeN_some h4
+    have hows : leWords 4 ob = Spec.leInts 4 n ob := by
+      rw [leInts_eq, leWords_of_length 4 n ob (by decide) l4]
     have hr2 : IsBytes rr := by rw [d2]; exact isBytes_drop _ hr1
     have hdb : IsBytes db := by rw [e3]; exact isBytes_take _ hr2
     have hr3 : IsBytes r3 := by rw [d3]; exact isBytes_drop _ hr2
@@ -364,7 +372,11 @@ theorem decodeHeader_spec (bs cb r1 : List Nat) (n : Nat) (flags : Option (List 
     rw [bind_ok _ _ _ _ _ (rfl : (pure none : Parser (List Nat) (Option (List Nat))) rr = .ok (none, rr))]
     simp only [hsz, ↓reduceIte]
     rw [Nat.mul_comm n 4, bind_ok _ _ _ _ _ t3, bind_ok _ _ _ _ _ t4]
-    exact ⟨_, rfl, hfl, hdescr, hdb, hr4⟩
+    refine ⟨_, rfl, hfl, hdescr, hdb, hr4, by rw [← hofs]; rfl, ?_⟩
+    intro os hos
+    rw [← hofs] at hos
+    simp only [Option.some.injEq] at hos
+    rw [← hos]; exact hows
   · by_cases hck2 : Spec.leNat cb % 65536 = 12347
     · simp only [hck, hck2, ↓reduceIte, false_or, Option.bind_eq_some_iff, Prod.exists, Option.some.injEq,
         Prod.mk.injEq] at hcase hoff ⊢
@@ -384,46 +396,67 @@ theorem decodeHeader_spec (bs cb r1 : List Nat) (n : Nat) (flags : Option (List 
       by_cases h4n : n ≥ 4
       · simp only [h4n, ↓reduceIte, Option.bind_eq_some_iff, Prod.exists, Option.some.injEq, Prod.mk.injEq,
           decide_true] at hoff ⊢
-        obtain ⟨ob, rr4, h4, _, hr4⟩ := hoff
+        obtain ⟨ob, rr4, h4, hofs, hr4⟩ := hoff
         subst hr4
         obtain ⟨t4, l4, e4, d4, _⟩ := takeN_some h4
         have hr4 : IsBytes rr4 := by rw [d4]; exact isBytes_drop _ hr3
+        have hows : leWords 4 ob = Spec.leInts 4 n ob := by
+          rw [leInts_eq, leWords_of_length 4 n ob (by decide) l4]
         rw [bind_ok _ _ _ _ _ t4]
-        exact ⟨_, rfl, hfl, hdescr, hdb, hr4⟩
+        refine ⟨_, rfl, hfl, hdescr, hdb, hr4, by rw [← hofs]; rfl, ?_⟩
+        intro os hos
+        rw [← hofs] at hos
+        simp only [Option.some.injEq] at hos
+        rw [← hos]; exact hows
       · simp only [h4n, ↓reduceIte, Option.some.injEq, Prod.mk.injEq, decide_false, Bool.false_eq_true] at hoff ⊢
-        obtain ⟨_, hr4⟩ := hoff
+        obtain ⟨hofs, hr4⟩ := hoff
         subst hr4
         rw [bind_ok _ _ _ _ _ (rfl : (pure [] : Parser (List Nat) (List Nat)) r3 = .ok ([], r3))]
-        exact ⟨_, rfl, hfl, hdescr, hdb, hr3⟩
+        refine ⟨_, rfl, hfl, hdescr, hdb, hr3, by rw [← hofs]; rfl, ?_⟩
+        intro os hos
+        rw [← hofs] at hos
+        cases hos
     · simp [hck, hck2] at hcase
 
+
+/-- what acceptance by the reference decoder says about the header, in the model's terms -/
+theorem decode_inv (bs S rest : List Nat) (hb : IsBytes bs) (h : Spec.decode bs = some (S, rest)) :
+    ∃ (hd : Header) (r4 : List Nat) (offs : Option (List Nat)),
+      decodeHeader readN bs = .ok (hd, r4) ∧ IsBytes r4 ∧
+      hd.hasOffsets = offs.isSome ∧ (∀ os, offs = some os → hd.offsets = os) ∧
+      (hd.descr.map (·.1)).Pairwise (· < ·) ∧ (∀ d ∈ hd.descr, d.1 < 65536) ∧
+      Spec.decodeChunks hd.runBitmap hd.descr 0 (bs.length - r4.length) offs r4 = some (S, rest) := by
+  unfold Spec.decode at h
+  simp only [bind, Option.bind_eq_some_iff, Prod.exists, guard_some_iff, pure] at h
+  obtain ⟨cb, r1, h1, n, flags, r2, hcase, _, hn, db, r3, h3, _, hasc, offs, r4, hoff, hchunks⟩ := h
+  obtain ⟨hd, hhd, hrb, hdescr, hdb, hr4, hho, hofs⟩ :=
+    decodeHeader_spec bs cb r1 n flags r2 db r3 offs r4 hb h1 hcase hn h3 hoff
+  refine ⟨hd, r4, offs, hhd, hr4, hho, hofs, ?_, ?_, by rw [hrb, hdescr]; exact hchunks⟩
+  · rw [hdescr]
+    apply (isStrictlySorted_iff _).mp
+    rw [← strictAsc_eq]; exact hasc
+  · intro d hd'
+    rw [hdescr, toPairs_eq, leInts_eq] at hd'
+    have := leWordsN_lt 2 _ db hdb d.1 (mem_pairs _ d hd').1
+    simpa using this
 
 theorem decode_spec (chk dbg : Bool) (bs S rest : List Nat) (hb : IsBytes bs)
     (h : Spec.decode bs = some (S, rest)) :
     ∃ b, deserialize chk dbg bs = .ok (b, rest) ∧ Bitmap.WF b ∧ Bitmap.elems b = S := by
-  unfold Spec.decode at h
-  simp only [bind, Option.bind_eq_some_iff, Prod.exists, guard_some_iff, pure] at h
-  obtain ⟨cb, r1, h1, n, flags, r2, hcase, _, hn, db, r3, h3, _, hasc, offs, r4, hoff, hchunks⟩ := h
-  obtain ⟨hd, hhd, hrb, hdescr, hdb, hr4⟩ :=
-    decodeHeader_spec bs cb r1 n flags r2 db r3 offs r4 hb h1 hcase hn h3 hoff
-  obtain ⟨cs, hcs, hk, hw, he, _⟩ := decodeContainers_spec chk dbg flags _ 0 _ offs r4 S rest hr4 hchunks
-  have hkeys : (cs.map (·.key)).Pairwise (· < ·) := by
-    rw [hk]
-    apply (isStrictlySorted_iff _).mp
-    rw [← strictAsc_eq]; exact hasc
+  obtain ⟨hd, r4, offs, hhd, hr4, _, _, hasc, hkd, hchunks⟩ := decode_inv bs S rest hb h
+  obtain ⟨cs, hcs, hk, hw, he, _⟩ :=
+    decodeContainers_spec chk dbg hd.runBitmap _ 0 _ offs r4 S rest hr4 hchunks
+  have hkeys : (cs.map (·.key)).Pairwise (· < ·) := by rw [hk]; exact hasc
   have hkb : ∀ c ∈ cs, c.key < 65536 := by
     intro c hc
     have : c.key ∈ cs.map (·.key) := List.mem_map_of_mem hc
     rw [hk] at this
     obtain ⟨d, hd', hdk⟩ := List.mem_map.mp this
-    rw [toPairs_eq, leInts_eq] at hd'
-    have := leWordsN_lt 2 _ db hdb d.1 (mem_pairs _ d hd').1
-    rw [← hdk]; simpa using this
+    rw [← hdk]; exact hkd d hd'
   have hwf : Bitmap.WF cs := ⟨hkeys, fun c hc => ⟨hkb c hc, hw c hc⟩⟩
   refine ⟨cs, ?_, hwf, he⟩
   unfold deserialize deserializeG
   rw [bind_ok _ _ _ _ _ hhd]
-  simp only [hrb, hdescr]
   rw [bind_ok _ _ _ _ _ hcs]
   cases chk with
   | false => simp [pure, Parser.pure]
